@@ -3,6 +3,8 @@
 package app
 
 import (
+	"context"
+	"sync"
 	"time"
 
 	"github.com/f1bonacc1/process-compose/src/command"
@@ -10,3 +12,9 @@ import (
 
 func verifCommander(_ *Process) command.Commander   { return nil }
 func verifBackoff(_ *Process) (time.Duration, bool) { return 0, false }
+func verifLockFree(_ *sync.Mutex) bool              { return true }
+func verifCmdDone(_ *Process) bool                  { return true }
+func verifStartedOrCancelled(_ *Process) bool       { return true }
+func verifStopCtx(_ *Process, c context.Context, f context.CancelFunc) (context.Context, context.CancelFunc) {
+	return c, f
+}
